@@ -292,6 +292,8 @@ pub fn render_ins(ins: &Ins, env: &mut Env) -> String {
             // no self-recursion and no cycle through a later function that calls this one
             let mut earlier = env.clone();
             earlier.fns.truncate(i);
+            // (inside the new body the function's own name means the new definition itself)
+            earlier.fns.retain(|f| f.0 != name);
             let body = expr_inner(&earlier, &params, rty, &mut r, 2);
             env.ans = None;
             env.redefinitions += 1;
